@@ -45,6 +45,27 @@ def el_id(e):
     return NONE if i is None else i
 
 
+def exposure(m, cls):
+    """what a live message object exposes right now (raw digests); used to detect that later merges change it"""
+    from mosromgr.moselements import Story
+    acc = ACC.get(cls, {})
+    out = {}
+    for name in ("tstory", "titem"):
+        if name in acc:
+            try:
+                out[name] = el_id(acc[name](m))
+            except Exception as e:  # noqa: BLE001
+                out[name] = "raised:" + type(e).__name__
+    for name in ("sources", "carried"):
+        if name in acc:
+            try:
+                out[name] = [(el_id(e), project.story(e.xml) if isinstance(e, Story) else project.leaf(e.xml))
+                             for e in acc[name](m)]
+            except Exception as e:  # noqa: BLE001
+                out[name] = "raised:" + type(e).__name__
+    return out
+
+
 def observe_msg(mid, mabs, seed):
     import sys
     from mosromgr.mostypes import MosFile
@@ -115,10 +136,10 @@ def run(report, tier, seed):
     from .checks import fam
     msgs, seen = [], set()
     cov = {"states": 0, "transitions": 0, "traces_validated_against_impl": 0, "samples": [], "exhaustive": True, "tlc": []}
-    for name, classes, bound in fam(tier, story=pipeline.STORY, item=pipeline.ITEM, other=pipeline.OTHER):
+    for name, classes, bound, _ in fam(tier, story=pipeline.STORY, item=pipeline.ITEM, other=pipeline.OTHER):
         b = dict(bound)
         b.update(MaxStories=2, Layouts=["plain"], MaxItems=2, ILayouts=["bare"])   # messages, not states, matter here
-        gen = pipeline.generate("%s-expose-%s" % (report.prop, name), classes, b, coverage=False)
+        gen = pipeline.generate("%s-expose-%s" % (report.prop, name), classes, b, coverage=False, invariants=False)
         cov["states"] += gen["stats"].get("distinct", 0)
         cov["transitions"] += gen["stats"].get("generated", 0)
         cov["tlc"].append({"family": name, "cmd": gen["stats"]["cmd"], "wall_s": gen["stats"]["wall_s"]})
